@@ -71,7 +71,6 @@ fn one_upload(r: &mut Report, rng: &mut Rng, shard: usize, schema: &refcodec::la
         ("firmware/old/firmware/kernel.gz", rng.bytes(13)),
         ("app1/app1/update.tar.gz", rng.bytes(4)),
         ("old/firmware/update.spec", rng.bytes(6)),
-        ("app2/update.spec/update.spec", rng.bytes(2)),
     ]
     .into_iter()
     .filter(|_| rng.chance(1, 2))
